@@ -25,6 +25,7 @@ pub fn generate(seed: u64, tier: &str, out: &mut dyn std::io::Write) {
         // Some requests of the sequence are made to fail part-way (the destination refuses a call, or
         // panics): whatever such a request recorded must not show up in the next one either.
         let mut rd = Rng::new(r.next() ^ 0x19);
+        let mut mutated = false;
         for j in 0..k {
             let mut dest = RecDest::new(vec![], 0);
             let disturb = j + 1 < k && rd.chance(1, 2);
@@ -34,6 +35,20 @@ pub fn generate(seed: u64, tier: &str, out: &mut dyn std::io::Write) {
                     dest.panic_at = Some(call);
                 } else {
                     dest.script.insert(call, Resp::Fail);
+                }
+            }
+            // before the last request the target's resource limits change (visible in /proc/<tid>/limits): what an
+            // earlier request read of the target's files must not be what this one reports
+            if j + 1 == k {
+                unsafe {
+                    let mut cur: libc::rlimit = std::mem::zeroed();
+                    if libc::prlimit(t.pid, libc::RLIMIT_NOFILE, std::ptr::null(), &mut cur) == 0 {
+                        let want = 64 + rd.below(900);
+                        let new = libc::rlimit { rlim_cur: want.min(cur.rlim_max), rlim_max: cur.rlim_max };
+                        if libc::prlimit(t.pid, libc::RLIMIT_NOFILE, &new, std::ptr::null_mut()) == 0 {
+                            mutated = true;
+                        }
+                    }
                 }
             }
             t.wait_parked();
@@ -72,8 +87,8 @@ pub fn generate(seed: u64, tier: &str, out: &mut dyn std::io::Write) {
         };
         writeln!(
             out,
-            "C19 w{}-{} kind=reuse cfg={} k={} results={} imgs={} fresh_result={} fresh={} args={}",
-            seed, i, cfg.field(), k, results.join(","), imgs.join(","), fres, fimg, sc.args.join(",")
+            "C19 w{}-{} kind=reuse cfg={} k={} results={} imgs={} fresh_result={} fresh={} mutated={} args={}",
+            seed, i, cfg.field(), k, results.join(","), imgs.join(","), fres, fimg, mutated as u8, sc.args.join(",")
         )
         .unwrap();
     }
